@@ -195,6 +195,9 @@ namespace chaiscript {
         return true;
       }
 
+      // a file shorter than a BOM leaves eofbit/failbit set by the probing read; without
+      // clearing them the seek and every later read fail and the content is lost
+      infile.clear();
       infile.seekg(0);
 
       return false;
